@@ -257,6 +257,34 @@ def check_race(case, r, obs, expect_success=True):
         elif tname == "CompleteCurrentTask":
             counts[(target, step)] = counts.get((target, step), 0) + 1
     obs.check(all(v == 1 for v in counts.values()), "complete-current-task-repeated", f"{counts}")
+    # ---- a worker that has been told to complete the element does not start another task of it (over-committed elements: a worker may
+    # have further tasks of the element queued behind the ones it is running; they are skipped up to the join point)
+    nonempty = [i for i, el in enumerate(schedule) if ("parallel" not in el) or len(el["parallel"]) > 0]
+    delivered_at = {}
+    for t_sent, t_del, _sender, target, tname in r.rt.message_log:
+        if tname == "CompleteCurrentTask" and t_del is not None:
+            delivered_at.setdefault((t_sent, target), t_del)
+    step = 0
+    for t_sent, _sender, target, tname in r.rt.send_log:
+        if tname == "TaskFinished":
+            step += 1
+        elif tname == "CompleteCurrentTask" and (t_sent, target) in delivered_at and 1 <= step <= len(nonempty):
+            el_i = nonempty[step - 1]
+            t_del = delivered_at[(t_sent, target)]
+            for (task, client), qs in sorted(groups.items()):
+                if by_name[task][0] == el_i and qs[0]["proc"] == target:
+                    first = min(q["t_enter"] for q in qs)
+                    leaf = by_name[task][1]
+                    if leaf.get("ramp_up"):
+                        # a ramped-up client is started with its task and issues its first request after its ramp-up wait
+                        if schedule[el_i].get("clients") is not None:
+                            continue
+                        first -= leaf["ramp_up"] * qs[0]["es_client_id"] / sum(m["clients"] for m in schedule[el_i]["parallel"])
+                    obs.check(
+                        first <= t_del + TOL,
+                        "task-started-after-completion",
+                        f"element {el_i}: worker {target} was told to complete the element at {t_del:.4f} but started task {task} client {client} at {first:.4f}",
+                    )
     # ---- classes
     n_workers = len(r.rt.instances(__import__("esrally.driver.driver", fromlist=["Worker"]).Worker))
     if n_workers >= 2:
